@@ -80,7 +80,28 @@ Record rcase := mkRC {
   rc_fwd : list (Z * Z);                 (* list(p.fetch(a, b)) as (start, end) *)
   rc_rev : option (list (Z * Z));        (* list(p.fetch(a, b, reverse=True)) if probed *)
   (* nested windows a <= a' , b' <= b: (a', b', forward result, reverse result if probed) *)
-  rc_subs : list (Z * Z * list (Z * Z) * option (list (Z * Z))) }.
+  rc_subs : list (Z * Z * list (Z * Z) * option (list (Z * Z)));
+  rc_slice : option (list (Z * Z));      (* list(p[a:b]) if probed *)
+  (* list(day_of_week(days, tz)[a:b]) / list(time_of_day(start, duration, tz)[a:b]) if the rule
+     is one of those convenience forms and it was probed *)
+  rc_flat : option (list (Z * Z)) }.
+
+(* a slice clips what fetch returns to [a, b) *)
+Definition clip_ivls (a b : Z) (l : list ivl) : list ivl :=
+  flat_map (fun i => let s := Z.max (fstart i) a in let e := Z.min (fend i) b in
+                     if s <? e then [mkI (Some s) (Some e) Plain] else []) l.
+(* flatten: overlapping and adjacent intervals of an ascending list become one *)
+Fixpoint coalesce_go (cur : ivl) (l : list ivl) : list ivl :=
+  match l with
+  | [] => [cur]
+  | x :: r => if fstart x <=? fend cur
+              then coalesce_go (mkI (st cur) (Some (Z.max (fend cur) (fend x))) Plain) r
+              else cur :: coalesce_go x r
+  end.
+Definition coalesce (l : list ivl) : list ivl := match l with [] => [] | x :: r => coalesce_go x r end.
+
+Definition opt_is (o : option (list (Z * Z))) (l : list ivl) : bool :=
+  match o with None => true | Some m => ivls_eqb (pis m) l end.
 
 Definition corr_rev (r : rule) (a b : Z) (o : option (list (Z * Z))) : bool :=
   match o with None => true | Some l => fres_is (fetch_reverse r a b) l end.
@@ -90,13 +111,21 @@ Definition corr_recur (c : rcase) : bool :=
   corr_rev (rc_rule c) (rc_a c) (rc_b c) (rc_rev c) &&
   forallb (fun s => let '(a', b', f, o) := s in
                     fres_is (fetch_forward (rc_rule c) a' b') f && corr_rev (rc_rule c) a' b' o)
-          (rc_subs c).
+          (rc_subs c) &&
+  match fetch_forward (rc_rule c) (rc_a c) (rc_b c) with
+  | Ok m => opt_is (rc_slice c) (clip_ivls (rc_a c) (rc_b c) m) &&
+            opt_is (rc_flat c) (coalesce (clip_ivls (rc_a c) (rc_b c) m))
+  | _ => false
+  end.
 
 (* C07: every answer is the window's part of the reference series *)
 Definition oracle_C07 (c : rcase) : bool :=
   ivls_eqb (pis (rc_fwd c)) (spec_occurrences (rc_rule c) (rc_a c) (rc_b c)) &&
   forallb (fun s => let '(a', b', f, _) := s in
-                    ivls_eqb (pis f) (spec_occurrences (rc_rule c) a' b')) (rc_subs c).
+                    ivls_eqb (pis f) (spec_occurrences (rc_rule c) a' b')) (rc_subs c) &&
+  (* slices clip; day_of_week / time_of_day are the flattened forms *)
+  opt_is (rc_slice c) (clip_ivls (rc_a c) (rc_b c) (spec_occurrences (rc_rule c) (rc_a c) (rc_b c))) &&
+  opt_is (rc_flat c) (coalesce (clip_ivls (rc_a c) (rc_b c) (spec_occurrences (rc_rule c) (rc_a c) (rc_b c)))).
 
 Definition pair_eqb (x y : Z * Z) : bool := (fst x =? fst y) && (snd x =? snd y).
 Definition pairs_eqb := list_eqb pair_eqb.
